@@ -11,7 +11,9 @@ META = {
     "level_text": "props/C13.v: inductive invariants over a transition system with any number of client and background-serving threads, any scheduler, any answer order "
                   "and nondeterministic timeouts: a single reader of the stream, every frame dispatched at most once, callbacks owned by the request of that number, result "
                   "cells set exactly by their own reply's dispatch, a waiter returns only with its own reply, unique sequence numbers, no lost wake-up (a sleeper always has a "
-                  "pending notifier) and progress while a reply is in the stream. serve's instruction program and the ordering facts of wait/__call__/_async_request are "
+                  "pending notifier) and progress while a reply is in the stream. 'Every request completes' is proved REFUTED for waiters without a deadline "
+                  "(c13_completion_refuted_without_deadline: the F5 window leaves the waiter in poll on an empty stream with its result ready; known finding F5c; the harness runs "
+                  "no-deadline scenarios and recognises exactly that shape). serve's instruction program and the ordering facts of wait/__call__/_async_request are "
                   "regenerated from the source (fail-closed) and tied by reflexivity; event traces of real threads under a virtual-primitive scheduler are replayed in the extracted model.",
     "level_note": "Trusted: Coq kernel, pygen, extraction+driver, the virtual Lock/Condition/poll/clock (harness/vsched.py) standing for threading and the channel; GIL atomicity of "
                   "dict.pop, dict.__setitem__, next(itertools.count()); one model step abstracts several source lines (issue = seq+register+send).",
@@ -221,6 +223,7 @@ def scenario(n_clients, with_bg, answer_order, chooser, sync_timeout=2.0, timeou
             out["schedule"] = S.run(chooser)
         except Deadlock as e:
             out["deadlock"] = str(e)
+            out["deadlock_blocked"] = {str(t): S.blocked.get(t, (None, None, ""))[2] for t in S.sem if t not in S.done}
             if stop["bg"] is not None:
                 stop["bg"]._active = False
         out["clock"] = clock
@@ -307,6 +310,25 @@ def oracle13(ctx, case, out, n_clients):
         ctx.violation("thread-raised", case, observed=out["errors"], expected="no exception", what="a thread raised")
 
 
+def oracle13_nodeadline(ctx, case, out, n_clients):
+    """waits without any timeout and a peer that answers everything: every request must complete. The one way not to
+    (finding F5 seen from C13): the waiter's reply was processed by another thread while the waiter sits in poll() on an
+    empty stream (or sleeps behind a thread that does) - with no deadline and no further traffic that is for ever."""
+    if out["deadlock"]:
+        bl = out.get("deadlock_blocked", {})
+        stuck = [i for i in range(n_clients) if i not in out["return_time"]]
+        dispatched = all(out["dispatch_count"].get(out["seq_of"].get(i)) == 1 for i in stuck if i in out["seq_of"])
+        in_window = bool(stuck) and dispatched and not out["inq_left"] and any(bl.get(str(i)) == "poll" for i in stuck) \
+            and all(bl.get(str(i)) in ("poll", "cond-wait") for i in stuck)
+        if in_window:
+            ctx.violation("waiter-without-deadline-stalls-after-reply-dispatched", case, observed={"blocked": bl, "undelivered": out["inq_left"]},
+                          expected="every request completes", what="every reply was received and processed, yet a waiter with no timeout is blocked in poll() on an empty stream for ever")
+        else:
+            ctx.violation("deadlock", case, observed=out["deadlock"][:300], expected="no deadlock", what="all threads blocked with no deadline")
+        return
+    oracle13(ctx, case, out, n_clients)
+
+
 def oracle13_eof(ctx, case, out, n_clients, answered_first):
     """the peer vanished after answering some requests: every other waiter must get EOFError, nobody may hang"""
     if out["deadlock"]:
@@ -384,6 +406,19 @@ def run_plans(ctx, which):
             ctx.case(("eof", nc, bg, tuple(order), seed, ea), nontrivial=True, sample={"case": case, "results": out["results"]})
             ctx.count("eof-runs")
             oracle13_eof(ctx, case, out, nc, ea)
+    if which == "C13":
+        for k in range(80 if ctx.quick else 2000):
+            nc = r.choice([1, 2, 2, 3])
+            bg = r.random() < 0.7 or nc == 1
+            order = list(range(nc)); r.shuffle(order)
+            seed, stick = r.randrange(10**9), r.choice([0.0, 0.2, 0.5])
+            out = scenario(nc, bg, order, make_chooser(seed, stick), sync_timeout=None, timeouts=[None] * nc)
+            case = {"clients": nc, "bg": bg, "order": order, "seed": seed, "stick": stick, "no_deadline": True}
+            ctx.case(("nodeadline", nc, bg, tuple(order), seed), nontrivial=(nc + bg) >= 2, sample={"case": case, "results": out["results"], "deadlock": bool(out["deadlock"])})
+            ctx.count("no-deadline-runs")
+            if out["deadlock"]:
+                ctx.count("no-deadline-runs-stalled")
+            oracle13_nodeadline(ctx, case, out, nc)
     if model and batch:
         outs = model.batch([b[0] for b in batch])
         for (mc, out, case), m in zip(batch, outs):
@@ -411,6 +446,11 @@ def replay(ctx, rep):
     if cs.get("eof_after") is not None:
         out = scenario(cs["clients"], cs["bg"], cs["order"], chooser, sync_timeout=None, timeouts=[None] * cs["clients"], eof_after=cs["eof_after"])
         oracle13_eof(ctx, cs, out, cs["clients"], cs["eof_after"])
+        ctx.case(("replay", cs["seed"]), True)
+        return
+    if cs.get("no_deadline"):
+        out = scenario(cs["clients"], cs["bg"], cs["order"], chooser, sync_timeout=None, timeouts=[None] * cs["clients"])
+        oracle13_nodeadline(ctx, cs, out, cs["clients"])
         ctx.case(("replay", cs["seed"]), True)
         return
     out = scenario(cs["clients"], cs["bg"], cs["order"], chooser)
